@@ -599,6 +599,11 @@ EB_API EbErrorType svt_av1_dec_frame(EbComponentType *svt_dec_component, const u
                                    (EB_ErrorNone == return_error) ? 1 : 0,
                                    dec_handle_ptr->frame_header.refresh_frame_flags);
 
+        /* A failed parse leaves data_start at an arbitrary position (possibly not advanced at
+         * all): report the error instead of re-parsing from there / looping forever. */
+        if (return_error != EB_ErrorNone)
+            break;
+
         // Allow extra zero bytes after the frame end
         while (data < data_end) {
             const uint8_t marker = data[0];
